@@ -157,6 +157,29 @@ def run(tier):
         res.ok("from_decoded:crc-of-stored-payload", "R-PROV", "crc = CRC.checksum(payload) of the stored payload bytes")
     else:
         res.violation("from_decoded:crc-of-stored-payload", "ByronAddress::from_decoded does not store CRC.checksum of the payload bytes it stores", where="%s:%s" % (fd.file, fd.line), rule="R-PROV")
+    # R-FRAME (round-trip half): the bytes stored are the encoding of the payload *as given* — the parameter reaches the
+    # encoder unmodified (no assignment to it or to one of its fields, no mutable borrow).  A builder that normalises the
+    # payload first (sorting attributes, rewriting a field) breaks payload -> address -> payload identity.
+    enc = flow.calls_matching(fd, r"minicbor::to_vec$|minicbor::encode$|minicbor::encode_with$|Encoder::encode$|Encoder::encode_with$|Encode::encode$")
+    params = [i for i in range(1, fd.argc + 1) if "AddressPayload" in fd.local_ty(i)]
+    okf = False
+    why = "no encoder call / payload parameter found"
+    if enc and len(params) == 1:
+        pi = params[0]
+        why = "the encoded value is not the payload parameter itself"
+        for bi, t in enc:
+            for a in t["args"]:
+                ch = flow.origin_chain(fd.sym_operand(a, 30))
+                if ch is not None and ch[0] == ("param", pi) and not ch[1]:
+                    okf = True
+        if not fd.is_stable_param(pi):
+            okf = False
+            why = "the payload parameter is written or mutably borrowed before it is encoded"
+    if okf:
+        res.ok("from_decoded:payload-encoded-as-given", "R-FRAME", "the payload parameter reaches the encoder unmodified")
+    else:
+        res.violation("from_decoded:payload-encoded-as-given", "ByronAddress::from_decoded does not encode the payload exactly as given (%s): building an address from a payload and decoding it back no longer yields that payload" % why,
+                      where="%s:%s" % (fd.file, fd.line), rule="R-FRAME")
     res.assumptions += ["crc crate computes CRC-32/ISO-HDLC", "addresses decoded as part of a block body (pallas-primitives byron types) are not 'parsed addresses' in the sense of the property"]
     return finish(res,
                   explanation="Must-pass-through rule: every entry point that parses a Byron address from external bytes/text can only return Ok after a function that "
